@@ -6,6 +6,7 @@
 -/
 import Proofs.C01_Lemmas
 import Proofs.C01_Object
+import Proofs.C01_Source
 import Mathlib.Tactic.LinearCombination
 import Mathlib.Tactic.NormNum
 
